@@ -128,7 +128,15 @@ def apply_op(name, args, rng):
     if name == "proj_col":
         return qutip.Qobj(q.full()[:, :1]).proj()
     if name == "ptrace":
-        return qutip.tensor(q, args[1]).ptrace(0) if q.dims == args[1].dims and q.isoper else q.copy()
+        if not (q.dims == args[1].dims and q.isoper):
+            return q.copy()
+        big = qutip.tensor(q, args[1])
+        r = rng.integers(0, 4)          # intermediate objects may have been inspected
+        if r & 1:
+            big.isherm
+        if r & 2:
+            big.isunitary
+        return big.ptrace(int(rng.integers(0, 2)))
     if name == "spre":
         return qutip.spre(q)
     if name == "spost":
@@ -144,8 +152,15 @@ def apply_op(name, args, rng):
     if name == "evo_td":
         return qutip.QobjEvo([q, [args[1], lambda t: t]])(2.0) if q.dims == args[1].dims else q.copy()
     if name == "permute":
+        if not (q.isoper and args[1].isoper and not q.issuper and not args[1].issuper):
+            return q.copy()
         t = qutip.tensor(q, args[1])
-        return t.permute([1, 0]) if q.isoper and args[1].isoper and not q.issuper and not args[1].issuper else q.copy()
+        r = rng.integers(0, 4)
+        if r & 1:
+            t.isherm
+        if r & 2:
+            t.isunitary
+        return t.permute([1, 0])
     if name == "transform":
         return q.transform(qutip.Qobj(np.array([[0, 1], [1, 0]], dtype=complex))) if q.dims == [[2], [2]] else q.copy()
     if name == "contract":
@@ -211,7 +226,7 @@ def run_program(prog, rules=None):
     viol = []
     mism = []
     nops = 0
-    rng = np.random.default_rng(0)
+    rng = np.random.default_rng(len(prog["steps"]) + 7 * len(prog["init"]))
     tainted = set()          # objects whose wrong cache was inherited from an operand (root cause reported there)
     for k, (q, lab) in enumerate(zip(store, labels)):
         for sig, what in check_obj(q, "constructor:" + lab):
